@@ -277,4 +277,81 @@ theorem item_sound (tb : Tables) (ht : tb.Trans) (hu : tb.InstUp) (xsd11 : Bool)
           case kind k nt => cases k <;> simp [Leaf.cls, coreCls] at hcore
           case listT l2 => cases x <;> simp [itemFn, matchLeaf, matchLeafNode] at hx
 
+/-! ### the theorem -/
+
+theorem isRestriction_func_left (tb : Tables) (a : Tys) (r S : Ty) (hS : S ≠ .empty)
+    (h : isRestriction tb (.func a r) S = true) : S.isTypedFunc = true := by
+  rw [isRestriction_nonempty tb _ _ hS] at h
+  simp only [Bool.and_eq_true, Bool.or_eq_true] at h
+  rcases h.2 with hb | hc
+  · have := (Ty.beq_iff _ _).1 hb
+    cases S <;> simp [Ty.strip] at this
+    rfl
+  · cases S with
+    | func a' r' => rfl
+    | leaf l o =>
+      cases l <;> simp [Ty.strip, Ty.cls, Leaf.cls, coreCls] at hc
+      case kind k nt => cases k <;> simp [Leaf.cls, coreCls] at hc
+    | _ => simp [Ty.strip, Ty.cls, coreCls] at hc
+
+theorem hasMapArray_false_mem : ∀ (v : List Item), hasMapArray v = false → ∀ x ∈ v, x.isMapArray = false
+  | [], _, x, hx => by simp at hx
+  | y :: ys, h, x, hx => by
+    cases y <;> simp [hasMapArray] at h
+    all_goals
+      rcases List.mem_cons.1 hx with rfl | hx'
+      · rfl
+      · exact hasMapArray_false_mem ys h x hx'
+
+/-- **Soundness of the restriction relation for matching.**  If `v` matches `S` and `S` is a restriction of
+`T` then `v` matches `T` — unless `T` is a typed function test and `v` contains a map or an array (F18i). -/
+theorem match_sound (tb : Tables) (ht : tb.Trans) (hu : tb.InstUp) (xsd11 : Bool) (T S : Ty) (v : List Item)
+    (hm : matchSt tb xsd11 true S v = .ok true) (hR : isRestriction tb T S = true)
+    (hF : (T.isTypedFunc && hasMapArray v) = false) :
+    matchSt tb xsd11 true T v = .ok true := by
+  by_cases eS : S = .empty
+  · subst eS
+    rw [matchSt_empty] at hm
+    have hv : v = [] := by cases v <;> simp_all
+    subst hv
+    rw [isRestriction_empty_right] at hR
+    by_cases eT : T = .empty
+    · subst eT; rfl
+    · rw [matchSt_eq_seqMatch _ _ _ _ _ eT, seqMatch_true]
+      have : T.beq .empty = false := (Ty.beq_false_iff _ _).2 eT
+      simp only [this, Bool.false_or, Bool.or_eq_true, beq_iff_eq] at hR
+      refine ⟨?_, by simp⟩
+      rcases hR with h | h <;> simp [h, cardOK]
+  · have eT : T ≠ .empty := by
+      intro e; subst e; rw [isRestriction_empty_left tb _ eS] at hR; exact absurd hR (by simp)
+    rw [matchSt_eq_seqMatch _ _ _ _ _ eS, seqMatch_true] at hm
+    rw [matchSt_eq_seqMatch _ _ _ _ _ eT, seqMatch_true]
+    obtain ⟨hcard, hitems⟩ := hm
+    constructor
+    · -- cardinality
+      have hocc : occOK T.last S.last = true := by
+        rw [isRestriction_nonempty tb _ _ eS] at hR
+        simp only [Bool.and_eq_true] at hR; exact hR.1
+      by_cases fS : S.isTypedFunc = true
+      · -- a typed function test matches exactly one item
+        have : S.ownOcc = .one := by cases S <;> simp [Ty.isTypedFunc] at fS; rfl
+        rw [this] at hcard
+        have : v.length = 1 := by simpa [cardOK] using hcard
+        rw [this]; exact cardOK_one _
+      · have fT : T.isTypedFunc = false := by
+          cases T with
+          | func a r => exact absurd (isRestriction_func_left tb a r S eS hR) fS
+          | _ => rfl
+        have e1 : T.ownOcc = T.last := by cases T <;> simp [Ty.isTypedFunc] at fT <;> rfl
+        have e2 : S.ownOcc = S.last := by cases S <;> simp [Ty.isTypedFunc] at fS <;> rfl
+        rw [e1]; rw [e2] at hcard
+        exact cardOK_mono hocc hcard
+    · intro x hx
+      apply item_sound tb ht hu xsd11 T S x eS hR (hitems x hx)
+      cases hT : T.isTypedFunc
+      · rfl
+      · rw [hT] at hF
+        simp only [Bool.true_and] at hF
+        simp [hasMapArray_false_mem v hF x hx]
+
 end EPV.SeqType
